@@ -206,3 +206,26 @@ package protocol
 //@   requires create != nil
 //@   ensures[C17] result1 == nil ==> (result0 != nil && hinv2(result0))
 //@   ensures[C17,C20] result1 != nil ==> result0 == nil
+
+// ---------------------------------------------------------------- wire messages (C15, C05)
+
+//@ func (*Message).UnmarshalBinary
+//@   nopanic[C05,C15]
+//@   requires m != nil
+//@   ensures[C15] cbor_failed(data) ==> result != nil
+
+//@ func (*Message).MarshalBinary
+//@   nopanic[C05]
+//@   requires m != nil
+
+//@ func (Message).IsFor
+//@   nopanic[C05]
+//@   modifies nothing
+//@   ensures result == (m.From != id && (m.To == "" || m.To == id))
+
+//@ func (*Message).Hash
+//@   nopanic[C05]
+//@   requires m != nil
+//@   modifies nothing
+//@   allocates
+//@   ensures result != nil && len(result) == 64
